@@ -167,6 +167,21 @@ def gen_load_scenario(rng):
                 sc['steps'][j] = ['set', rng.choice(new_plain), st[2]]
         sc['steps'].append(['set', rng.choice(new_plain), rng.randint(0, 9)]) if new_plain else None
         sc['steps'].append(['tick', rng.choice(DTS)])
+    # PUT /ports with the hub's own document (every port is reset and restored), mostly while a faulty port's read raises / skips
+    if rng.random() < 0.7:
+        faulty = [p['id'] for p in all_specs(sc) if p['faulty']]
+        for _ in range(rng.choice([1, 1, 2])):
+            ticks = [i for i, st in enumerate(sc['steps']) if st[0] == 'tick']
+            if not ticks:
+                break
+            at = rng.choice(ticks) + 1
+            ins = [['restore']]
+            if faulty and rng.random() < 0.8:
+                f = rng.choice(faulty)
+                first_load = min([i for i, st in enumerate(sc['steps']) if st[0] == 'load' and any(b['id'] == f for b in st[1])] or [-1])
+                if first_load < at:
+                    ins = [['fault', f, {'read': rng.choice(FAULTS)}], ['restore']]
+            sc['steps'][at:at] = ins
     return sc
 
 
@@ -446,6 +461,7 @@ def handle_pairs(ctx, res, scenarios, results, tag, seen, max_shrink=2):
             for p in all_specs(sc):
                 for site, k in (p.get('fault0') or {}).items():
                     dist['%s@load-%s' % (k, site)] = dist.get('%s@load-%s' % (k, site), 0) + 1
+            dist['restores'] = dist.get('restores', 0) + sum(1 for st in sc['steps'] if st[0] == 'restore')
             if pr['faulty_run'].get('load_failed'):
                 dist['runs_with_a_failed_load'] = dist.get('runs_with_a_failed_load', 0) + 1
         if pr['faulty_run'].get('stuck'):
